@@ -62,9 +62,10 @@ class JImage:
         return free[:n]
 
 
-def gen_txns(r, cfg, targets):
-    """returns (txns, description)"""
-    ntx = r.choice([0, 1, 1, 2, 3, 5, 8, 12])
+def gen_txns(r, cfg, targets, force_desc_time=None):
+    """returns (txns, description); force_desc_time = d: the last descriptor's checksum is bad and its
+    commit time is the previous transaction's + d (the stale-vs-corrupt boundary)"""
+    ntx = r.choice([0, 1, 1, 2, 3, 5, 8, 12]) if force_desc_time is None else r.choice([2, 3, 5])
     txns = []
     seq = cfg.seq0
     time = 1700000000
@@ -96,7 +97,7 @@ def gen_txns(r, cfg, targets):
         budget -= 1
         seq = (seq + 1) & 0xFFFFFFFF
     # damage / stale suffix
-    k = r.random()
+    k = r.random() if force_desc_time is None or len(txns) < 2 or not cfg.csum else 0.25
     note = "clean"
     if txns and k < 0.12:
         txns[-1]["commit"]["missing"] = True
@@ -106,11 +107,16 @@ def gen_txns(r, cfg, targets):
         note = "last commit csum bad"
     elif txns and k < 0.30 and cfg.csum:
         txns[-1]["bad_desc_csum"] = True
-        if r.random() < 0.5:
-            txns[-1]["commit"]["time"] = txns[-1]["commit"]["time"] - 1000   # looks like a stale block
-            note = "last descriptor csum bad, commit time older (stale)"
+        # commit time relative to the previous transaction decides "stale block of an older journal" vs corruption
+        prev = txns[-2]["commit"]["time"] if len(txns) > 1 else None
+        if prev is None:
+            if r.random() < 0.5:
+                txns[-1]["commit"]["time"] -= 1000
+            note = "only descriptor csum bad"
         else:
-            note = "last descriptor csum bad, commit time newer (corruption)"
+            d = r.choice([-1000, -1, 0, 0, 1, 5]) if force_desc_time is None else force_desc_time
+            txns[-1]["commit"]["time"] = prev + d
+            note = "last descriptor csum bad, commit time %s (%s)" % ("older" if d < 0 else "equal" if d == 0 else "newer", "stale" if d < 0 else "corruption")
     elif txns and k < 0.40 and cfg.csum:
         x = r.choice(txns)
         ds = [it for it in x["items"] if it[0] == "D"]
@@ -196,6 +202,9 @@ def one_case(src, mexe, idx, seed, tier):
     name, opts, size = r.choice(BASES)
     jimg = JImage(base_image(src, name, opts, size))
     mode = r.choice(["none", "v3", "v3", "v2"])
+    force = [-1, 0, 1][idx % 3] if idx < 9 else None        # directed boundary cases run first
+    if force is not None:
+        mode = ["v3", "v2"][idx % 2]
     inc = {"none": 0, "v2": INCOMPAT_CSUM2, "v3": INCOMPAT_CSUM3}[mode]
     if r.random() < 0.5:
         inc |= INCOMPAT_64BIT
@@ -205,7 +214,7 @@ def one_case(src, mexe, idx, seed, tier):
     seq0 = r.choice([1, 2, 77, 0x7FFFFFFA, 0xFFFFFFF9, r.randint(3, 1 << 31)])
     targets = jimg.free_blocks(r.randint(2, 9), r)
     tmp_cfg = Cfg(jimg.bs, jimg.first, jimg.maxlen, jimg.uuid, inc, seq0, start_rel)
-    txns, note = gen_txns(r, tmp_cfg, targets)
+    txns, note = gen_txns(r, tmp_cfg, targets, force)
     recipe = {"base": name, "mke2fs": opts, "journal": {"csum": mode, "64bit": bool(inc & INCOMPAT_64BIT), "start_rel": start_rel, "len": jlen, "seq0": seq0},
               "note": note, "txns": [{"seq": x["seq"], "items": [(k2, [t["blk"] for t in p] if k2 == "D" else p) for k2, p in x["items"]],
                                       "commit": x.get("commit")} for x in txns]}
